@@ -45,6 +45,14 @@ func ZZC18Write() {
 	mode := zzInt("mode", 0, 0o777)
 	zzAssume(mode&0o400 != 0) // the user can read the file (otherwise fmt cannot even start)
 	zzFSPut(path, orig, mode)
+	// the process umask is arbitrary; the file may be given through a symbolic link
+	zzFSUmask(zzInt("umask", 0, 0o777))
+	viaLink := zzChoice("vialink", 2) == 1
+	real := path
+	if viaLink {
+		path = zzFSPath("link-" + name)
+		zzFSSymlink(path, real)
+	}
 
 	inject := zzChoice("inject", 3) // 0 none, 1 one failing call, 2 kill
 	k := 0
@@ -57,7 +65,7 @@ func ZZC18Write() {
 	}
 	if !zzSymbolic() && inject != 0 {
 		// native confirmation: real binary, real file, injection by strace at every system call
-		zzNativeInject(path, orig, want, parsable, mode, inject == 2, []string{"ENOSPC", "EIO", "EACCES"}[errno])
+		zzNativeInject(path, real, orig, want, parsable, mode, inject == 2, []string{"ENOSPC", "EIO", "EACCES"}[errno])
 		return
 	}
 	switch inject {
@@ -78,6 +86,12 @@ func ZZC18Write() {
 	zzAssert(ok, "C18 -w: the source file still exists")
 	if !ok {
 		return
+	}
+	if viaLink {
+		// the file the link points to is a source file too: it must never be damaged
+		rdata, rm, rok := zzFSGet(real)
+		zzAssert(rok && (rdata == orig || (parsable && rdata == want)), "C18 -w: the file behind a symbolic link holds either its complete original text or the complete formatted text")
+		zzAssert(rm == mode, "C18 -w: permission bits of the file behind a symbolic link are unchanged")
 	}
 	zzAssert(data == orig || (parsable && data == want), "C18 -w: the file holds either its complete original text or the complete formatted text")
 	zzAssert(m == mode, "C18 -w: permission bits are unchanged")
